@@ -1011,6 +1011,37 @@ func callBuiltin(caller *frame, callpos token.Pos, fn *ssa.Builtin, args []value
 		close(args[0].(chan value))
 		return nil
 
+	case "clear": // clear(map) | clear(slice)
+		switch m := args[0].(type) {
+		case map[value]value:
+			if cur != nil && cur.freezeOn && len(m) > 0 {
+				cur.checkSharedMap(caller, m)
+			}
+			for k := range m {
+				delete(m, k)
+			}
+		case *hashmap:
+			if m != nil {
+				for _, e := range m.entries() {
+					for ; e != nil; e = e.next {
+						m.delete(e.key)
+					}
+				}
+			}
+		case []value:
+			params := fn.Type().(*types.Signature).Params()
+			var et types.Type
+			if st, ok := params.At(0).Type().Underlying().(*types.Slice); ok {
+				et = st.Elem()
+			}
+			for i := range m {
+				if et != nil {
+					m[i] = zero(et)
+				}
+			}
+		}
+		return nil
+
 	case "delete": // delete(map[K]value, K)
 		switch m := args[0].(type) {
 		case map[value]value:
